@@ -11,7 +11,7 @@ Open Scope Z_scope.
 
 Definition flags_ok (expected got : list Z) : bool :=
   Nat.eqb (length expected) (length got) &&
-  forallb (fun q => (fst q =? snd q) && ((snd q =? 1) || (snd q =? 2))) (combine expected got).
+  forallb (fun q => (snd q =? 1) || ((snd q =? 2) && (fst q =? 2))) (combine expected got).
 
 Definition oracle_c19 (code : Z) (ps : list Z) (vs outs : list (list Z)) : Z :=
   let expected := last vs [] in
